@@ -29,9 +29,19 @@ mod kani_harness_c11 {
         }
     }
 
-    fn body(mode_id: u8, prayer: Prayer, lo: f64, hi: f64) {
+    fn body(mode_id: u8, prayer: Prayer, lo: f64, hi: f64, exclude_sliver: bool) {
         let hour: f64 = kani::any();
         kani::assume(hour >= lo && hour < hi);
+        if exclude_sliver {
+            // known finding (f64): when the unrounded seconds are within 1e-4 s of 60 the re-derived minute can carry twice
+            let mut h = hour;
+            while h < 0. {
+                h += 24.;
+            }
+            let min = (h - h.floor()) * 60.;
+            let sec = (min - min.floor()) * 60.;
+            kani::assume(sec < 59.9999);
+        }
         let mode = match mode_id {
             1 => RoundSeconds::NormalRounding,
             2 => RoundSeconds::SpecialRounding,
@@ -47,27 +57,99 @@ mod kani_harness_c11 {
         kani::cover!(t1 == t0, "rounding keeps the time");
     }
 
-    #[kani::proof]
-    #[kani::unwind(10)]
-    fn c11_bits_normal_fajr_am() {
-        body(1, Prayer::Fajr, 0.0, 12.0);
+    macro_rules! c11h {
+        ($name:ident, $mode:expr, $prayer:expr, $lo:expr, $hi:expr, $ex:expr) => {
+            #[kani::proof]
+            #[kani::unwind(10)]
+            fn $name() {
+                body($mode, $prayer, $lo, $hi, $ex);
+            }
+        };
     }
-
-    #[kani::proof]
-    #[kani::unwind(10)]
-    fn c11_bits_special_shurooq_am() {
-        body(2, Prayer::Shurooq, 0.0, 12.0);
-    }
-
-    #[kani::proof]
-    #[kani::unwind(10)]
-    fn c11_bits_aggressive_isha_pm() {
-        body(3, Prayer::Isha, 12.0, 24.0);
-    }
-
-    #[kani::proof]
-    #[kani::unwind(10)]
-    fn c11_bits_normal_dhuhr_wrap() {
-        body(1, Prayer::Dhuhr, -24.0, 0.0);
-    }
+    // full f64 domain of one slice (exposes the recorded f64 sliver finding)
+    c11h!(c11_bits_all_normal_fajr_am, 1, Prayer::Fajr, 0.0, 12.0, false);
+    c11h!(c11_bits_ex_normal_imsaak_n, 1, Prayer::Imsaak, -24.0, 0.0, true);
+    c11h!(c11_bits_ex_normal_imsaak_am, 1, Prayer::Imsaak, 0.0, 12.0, true);
+    c11h!(c11_bits_ex_normal_imsaak_pm, 1, Prayer::Imsaak, 12.0, 24.0, true);
+    c11h!(c11_bits_ex_normal_imsaak_x, 1, Prayer::Imsaak, 24.0, 48.0, true);
+    c11h!(c11_bits_ex_normal_fajr_n, 1, Prayer::Fajr, -24.0, 0.0, true);
+    c11h!(c11_bits_ex_normal_fajr_am, 1, Prayer::Fajr, 0.0, 12.0, true);
+    c11h!(c11_bits_ex_normal_fajr_pm, 1, Prayer::Fajr, 12.0, 24.0, true);
+    c11h!(c11_bits_ex_normal_fajr_x, 1, Prayer::Fajr, 24.0, 48.0, true);
+    c11h!(c11_bits_ex_normal_shurooq_n, 1, Prayer::Shurooq, -24.0, 0.0, true);
+    c11h!(c11_bits_ex_normal_shurooq_am, 1, Prayer::Shurooq, 0.0, 12.0, true);
+    c11h!(c11_bits_ex_normal_shurooq_pm, 1, Prayer::Shurooq, 12.0, 24.0, true);
+    c11h!(c11_bits_ex_normal_shurooq_x, 1, Prayer::Shurooq, 24.0, 48.0, true);
+    c11h!(c11_bits_ex_normal_dhuhr_n, 1, Prayer::Dhuhr, -24.0, 0.0, true);
+    c11h!(c11_bits_ex_normal_dhuhr_am, 1, Prayer::Dhuhr, 0.0, 12.0, true);
+    c11h!(c11_bits_ex_normal_dhuhr_pm, 1, Prayer::Dhuhr, 12.0, 24.0, true);
+    c11h!(c11_bits_ex_normal_dhuhr_x, 1, Prayer::Dhuhr, 24.0, 48.0, true);
+    c11h!(c11_bits_ex_normal_asr_n, 1, Prayer::Asr, -24.0, 0.0, true);
+    c11h!(c11_bits_ex_normal_asr_am, 1, Prayer::Asr, 0.0, 12.0, true);
+    c11h!(c11_bits_ex_normal_asr_pm, 1, Prayer::Asr, 12.0, 24.0, true);
+    c11h!(c11_bits_ex_normal_asr_x, 1, Prayer::Asr, 24.0, 48.0, true);
+    c11h!(c11_bits_ex_normal_maghrib_n, 1, Prayer::Maghrib, -24.0, 0.0, true);
+    c11h!(c11_bits_ex_normal_maghrib_am, 1, Prayer::Maghrib, 0.0, 12.0, true);
+    c11h!(c11_bits_ex_normal_maghrib_pm, 1, Prayer::Maghrib, 12.0, 24.0, true);
+    c11h!(c11_bits_ex_normal_maghrib_x, 1, Prayer::Maghrib, 24.0, 48.0, true);
+    c11h!(c11_bits_ex_normal_isha_n, 1, Prayer::Isha, -24.0, 0.0, true);
+    c11h!(c11_bits_ex_normal_isha_am, 1, Prayer::Isha, 0.0, 12.0, true);
+    c11h!(c11_bits_ex_normal_isha_pm, 1, Prayer::Isha, 12.0, 24.0, true);
+    c11h!(c11_bits_ex_normal_isha_x, 1, Prayer::Isha, 24.0, 48.0, true);
+    c11h!(c11_bits_ex_special_imsaak_n, 2, Prayer::Imsaak, -24.0, 0.0, true);
+    c11h!(c11_bits_ex_special_imsaak_am, 2, Prayer::Imsaak, 0.0, 12.0, true);
+    c11h!(c11_bits_ex_special_imsaak_pm, 2, Prayer::Imsaak, 12.0, 24.0, true);
+    c11h!(c11_bits_ex_special_imsaak_x, 2, Prayer::Imsaak, 24.0, 48.0, true);
+    c11h!(c11_bits_ex_special_fajr_n, 2, Prayer::Fajr, -24.0, 0.0, true);
+    c11h!(c11_bits_ex_special_fajr_am, 2, Prayer::Fajr, 0.0, 12.0, true);
+    c11h!(c11_bits_ex_special_fajr_pm, 2, Prayer::Fajr, 12.0, 24.0, true);
+    c11h!(c11_bits_ex_special_fajr_x, 2, Prayer::Fajr, 24.0, 48.0, true);
+    c11h!(c11_bits_ex_special_shurooq_n, 2, Prayer::Shurooq, -24.0, 0.0, true);
+    c11h!(c11_bits_ex_special_shurooq_am, 2, Prayer::Shurooq, 0.0, 12.0, true);
+    c11h!(c11_bits_ex_special_shurooq_pm, 2, Prayer::Shurooq, 12.0, 24.0, true);
+    c11h!(c11_bits_ex_special_shurooq_x, 2, Prayer::Shurooq, 24.0, 48.0, true);
+    c11h!(c11_bits_ex_special_dhuhr_n, 2, Prayer::Dhuhr, -24.0, 0.0, true);
+    c11h!(c11_bits_ex_special_dhuhr_am, 2, Prayer::Dhuhr, 0.0, 12.0, true);
+    c11h!(c11_bits_ex_special_dhuhr_pm, 2, Prayer::Dhuhr, 12.0, 24.0, true);
+    c11h!(c11_bits_ex_special_dhuhr_x, 2, Prayer::Dhuhr, 24.0, 48.0, true);
+    c11h!(c11_bits_ex_special_asr_n, 2, Prayer::Asr, -24.0, 0.0, true);
+    c11h!(c11_bits_ex_special_asr_am, 2, Prayer::Asr, 0.0, 12.0, true);
+    c11h!(c11_bits_ex_special_asr_pm, 2, Prayer::Asr, 12.0, 24.0, true);
+    c11h!(c11_bits_ex_special_asr_x, 2, Prayer::Asr, 24.0, 48.0, true);
+    c11h!(c11_bits_ex_special_maghrib_n, 2, Prayer::Maghrib, -24.0, 0.0, true);
+    c11h!(c11_bits_ex_special_maghrib_am, 2, Prayer::Maghrib, 0.0, 12.0, true);
+    c11h!(c11_bits_ex_special_maghrib_pm, 2, Prayer::Maghrib, 12.0, 24.0, true);
+    c11h!(c11_bits_ex_special_maghrib_x, 2, Prayer::Maghrib, 24.0, 48.0, true);
+    c11h!(c11_bits_ex_special_isha_n, 2, Prayer::Isha, -24.0, 0.0, true);
+    c11h!(c11_bits_ex_special_isha_am, 2, Prayer::Isha, 0.0, 12.0, true);
+    c11h!(c11_bits_ex_special_isha_pm, 2, Prayer::Isha, 12.0, 24.0, true);
+    c11h!(c11_bits_ex_special_isha_x, 2, Prayer::Isha, 24.0, 48.0, true);
+    c11h!(c11_bits_ex_aggressive_imsaak_n, 3, Prayer::Imsaak, -24.0, 0.0, true);
+    c11h!(c11_bits_ex_aggressive_imsaak_am, 3, Prayer::Imsaak, 0.0, 12.0, true);
+    c11h!(c11_bits_ex_aggressive_imsaak_pm, 3, Prayer::Imsaak, 12.0, 24.0, true);
+    c11h!(c11_bits_ex_aggressive_imsaak_x, 3, Prayer::Imsaak, 24.0, 48.0, true);
+    c11h!(c11_bits_ex_aggressive_fajr_n, 3, Prayer::Fajr, -24.0, 0.0, true);
+    c11h!(c11_bits_ex_aggressive_fajr_am, 3, Prayer::Fajr, 0.0, 12.0, true);
+    c11h!(c11_bits_ex_aggressive_fajr_pm, 3, Prayer::Fajr, 12.0, 24.0, true);
+    c11h!(c11_bits_ex_aggressive_fajr_x, 3, Prayer::Fajr, 24.0, 48.0, true);
+    c11h!(c11_bits_ex_aggressive_shurooq_n, 3, Prayer::Shurooq, -24.0, 0.0, true);
+    c11h!(c11_bits_ex_aggressive_shurooq_am, 3, Prayer::Shurooq, 0.0, 12.0, true);
+    c11h!(c11_bits_ex_aggressive_shurooq_pm, 3, Prayer::Shurooq, 12.0, 24.0, true);
+    c11h!(c11_bits_ex_aggressive_shurooq_x, 3, Prayer::Shurooq, 24.0, 48.0, true);
+    c11h!(c11_bits_ex_aggressive_dhuhr_n, 3, Prayer::Dhuhr, -24.0, 0.0, true);
+    c11h!(c11_bits_ex_aggressive_dhuhr_am, 3, Prayer::Dhuhr, 0.0, 12.0, true);
+    c11h!(c11_bits_ex_aggressive_dhuhr_pm, 3, Prayer::Dhuhr, 12.0, 24.0, true);
+    c11h!(c11_bits_ex_aggressive_dhuhr_x, 3, Prayer::Dhuhr, 24.0, 48.0, true);
+    c11h!(c11_bits_ex_aggressive_asr_n, 3, Prayer::Asr, -24.0, 0.0, true);
+    c11h!(c11_bits_ex_aggressive_asr_am, 3, Prayer::Asr, 0.0, 12.0, true);
+    c11h!(c11_bits_ex_aggressive_asr_pm, 3, Prayer::Asr, 12.0, 24.0, true);
+    c11h!(c11_bits_ex_aggressive_asr_x, 3, Prayer::Asr, 24.0, 48.0, true);
+    c11h!(c11_bits_ex_aggressive_maghrib_n, 3, Prayer::Maghrib, -24.0, 0.0, true);
+    c11h!(c11_bits_ex_aggressive_maghrib_am, 3, Prayer::Maghrib, 0.0, 12.0, true);
+    c11h!(c11_bits_ex_aggressive_maghrib_pm, 3, Prayer::Maghrib, 12.0, 24.0, true);
+    c11h!(c11_bits_ex_aggressive_maghrib_x, 3, Prayer::Maghrib, 24.0, 48.0, true);
+    c11h!(c11_bits_ex_aggressive_isha_n, 3, Prayer::Isha, -24.0, 0.0, true);
+    c11h!(c11_bits_ex_aggressive_isha_am, 3, Prayer::Isha, 0.0, 12.0, true);
+    c11h!(c11_bits_ex_aggressive_isha_pm, 3, Prayer::Isha, 12.0, 24.0, true);
+    c11h!(c11_bits_ex_aggressive_isha_x, 3, Prayer::Isha, 24.0, 48.0, true);
 }
